@@ -300,3 +300,9 @@ func VerifC09_Truncation() {
 	}
 	sym.Observe("out", out)
 }
+
+// VerifC19_InputCounters: input passed + dropped = messages received, with byte lengths (arbitrary heads).
+//
+//verif:reach passed dropped
+//verif:unwind 100
+func VerifC19_InputCounters() { verifAnyHead(7 + sym.Tier()) }
